@@ -173,6 +173,49 @@ def execute_guarded(prop, record, timeout=None):
         signal.signal(signal.SIGALRM, old)
 
 
+def _forked_batch(*args):
+    """Runs _worker_batch in a forked child of this pool worker and ships the result back through a pipe, so
+    that whatever the batch leaves behind in memory dies with the child.  (plasTeX keeps whole documents alive
+    through uncollectable cycles - e.g. \\newif names its generated class with the EscapeSequence token, which
+    refers to the document - about 350 kB per parsed document; a long thorough batch would otherwise exhaust
+    the machine's memory.)"""
+    import pickle
+    r, w = os.pipe()
+    pid = os.fork()
+    if pid == 0:
+        status = 1
+        try:
+            os.close(r)
+            data = pickle.dumps(_worker_batch(*args), protocol=4)
+            view = memoryview(data)
+            while view:
+                n = os.write(w, view[:1 << 16])
+                view = view[n:]
+            status = 0
+        except BaseException:
+            try:
+                os.write(w, pickle.dumps({'__error__': traceback.format_exc()[-3000:]}))
+            except Exception:
+                pass
+        finally:
+            os._exit(status)
+    os.close(w)
+    chunks = []
+    while True:
+        b = os.read(r, 1 << 20)
+        if not b:
+            break
+        chunks.append(b)
+    os.close(r)
+    _, st = os.waitpid(pid, 0)
+    if not chunks:
+        raise HarnessError('batch child died with status %s' % os.waitstatus_to_exitcode(st))
+    out = pickle.loads(b''.join(chunks))
+    if '__error__' in out:
+        raise HarnessError('batch child failed: %s' % out['__error__'])
+    return out
+
+
 def _worker_batch(pid, base_seed, tier, indices, want_samples, records=None):
     """indices: run indices to generate+execute; records: already materialised
     (index, record) pairs from the property's deterministic enumeration."""
@@ -417,10 +460,11 @@ def run_check(pid, tier, base_seed, runs=None, workers=None, wall_cap=None):
     batches = [list(range(s, min(s + batch, runs))) for s in range(0, runs, batch)]
     ctx = multiprocessing.get_context('fork')
     ex = ProcessPoolExecutor(max_workers=workers, mp_context=ctx)
+    task = _forked_batch if meta.get('fork_batches') else _worker_batch
     try:
         futs = {}
         for bi, b in enumerate(batches):
-            futs[ex.submit(_worker_batch, pid, base_seed, tier, b, 2 if bi < 4 else 0)] = b
+            futs[ex.submit(task, pid, base_seed, tier, b, 2 if bi < 4 else 0)] = b
         n_enum = 0
         if hasattr(prop, 'enumerate_cases'):
             cases = prop.enumerate_cases(base_seed, tier)
@@ -428,7 +472,7 @@ def run_check(pid, tier, base_seed, runs=None, workers=None, wall_cap=None):
             ebatch = meta.get('enum_batch', {}).get(tier, batch)
             for s0 in range(0, len(cases), ebatch):
                 recs = [(runs + j, cases[j]) for j in range(s0, min(s0 + ebatch, len(cases)))]
-                futs[ex.submit(_worker_batch, pid, base_seed, tier, [], 1 if s0 == 0 else 0, recs)] = recs
+                futs[ex.submit(task, pid, base_seed, tier, [], 1 if s0 == 0 else 0, recs)] = recs
         pending = set(futs)
         for fut in as_completed(pending, timeout=wall_cap + 600):
             try:
